@@ -850,7 +850,8 @@ def cq_function(key, fn):
         if o["kind"] == "param":
             objs_init.append("mkobj %d %s" % (o["cw"], ident(o["name"])))
         else:
-            objs_init.append("mkobj %d (firstn %d (junk_%s ++ repeat 0 %d))" % (o["cw"], o["ncells"], ident(o["name"]), o["ncells"]))
+            # an uninitialised local array holds arbitrary values OF ITS CELL TYPE
+            objs_init.append("mkobj %d (map (wrap %d) (firstn %d (junk_%s ++ repeat 0 %d)))" % (o["cw"], o["cw"], o["ncells"], ident(o["name"]), o["ncells"]))
     fn.sig = "".join("N" if a.endswith(": N)") else "L" for a in args)
     outs = [i for i, o in enumerate(fn.objs) if o["kind"] == "param" and o["written"]]
     fn.nouts = len(outs)
